@@ -18,10 +18,10 @@ BUDGET = {
 }
 REQUIRED_PROBES = {"quick": ("define_refused", "define_ok", "delete_one", "delete_all", "link_refused", "link_ok",
                              "unlink", "dup_rptid_in_link", "trigger_enabled", "trigger_disabled", "s6f15",
-                             "delete_linked_report"),
+                             "delete_linked_report", "transport_secsi"),
                    "thorough": ("define_refused", "define_ok", "delete_one", "delete_all", "link_refused", "link_ok",
                                 "unlink", "dup_rptid_in_link", "trigger_enabled", "trigger_disabled", "s6f15",
-                                "delete_linked_report")}
+                                "delete_linked_report", "transport_secsi")}
 EVIDENCE = {
     "level": "exploration",
     "rule": ("seeded sequences of S2F33 (define one/many, delete one, delete all, unknown VID, redefinition), "
@@ -32,8 +32,8 @@ EVIDENCE = {
              "requested for every known CEID; non-trivial = at least one accepted define and one accepted link; "
              "distinct = distinct op-kind sequences"),
     "real": ["secsgem.gem.CollectionEventCapability", "secsgem.gem.StatusDataCollectionCapability",
-             "secsgem.gem.DataValueCapability", "secsgem.gem.GemEquipmentHandler", "secsgem.hsms.HsmsProtocol"],
-    "stub": ["socket/select (SimSocket)", "scripted host (reference codecs)"],
+             "secsgem.gem.DataValueCapability", "secsgem.gem.GemEquipmentHandler", "secsgem.hsms.HsmsProtocol", "secsgem.secsi.SecsIProtocol + SerialConnection (a fifth of the runs)"],
+    "stub": ["socket/select (SimSocket)", "serial.Serial (SimLine) with the reference E4 peer", "scripted host (reference codecs)"],
     "assumptions": ["where E5 leaves the outcome open (redefinition of an existing RPTID, linking further reports to a "
                     "linked event, duplicates inside a link list, S2F37 with unknown ids) the model follows the "
                     "acknowledge code the equipment gave and checks that the effect matches it",
@@ -106,6 +106,7 @@ def gen_plan(rng, tier, index):
             ops.append(["s6f15", rng.choice(CEIDS)])
     plan = {"ops": ops, "active": rng.random() < 0.3, "latency": rng.choice([0.0, 0.0005, 0.01]),
             "check_all_every": rng.choice([1, 1, 2])}
+    plan["transport"] = rng.choice(["hsms", "hsms", "hsms", "hsms", "secsi"])
     sched = dict(rng.choice(SCHEDS))
     sched["seed"] = rng.getrandbits(48)
     plan["sched"] = sched
@@ -134,7 +135,11 @@ def run(sim, plan):
     import secsgem.secs.variables as var
 
     sim.make_net(latency=plan["latency"])
-    env = gemenv.GemEnv(sim, role="equipment", active=plan["active"], t3=T3, delay=1,
+    transport = plan.get("transport", "hsms")
+    line = sim.make_line(a="SIMA", b="SIMB") if transport == "secsi" else None
+    if transport == "secsi":
+        sim.probe("transport_secsi")
+    env = gemenv.GemEnv(sim, role="equipment", active=plan["active"], t3=T3, delay=1, transport=transport, line=line,
                         initial_control_state="ONLINE", initial_online_control_state="REMOTE")
     eq = env.handler
     eq.status_variables[10] = secsgem.gem.StatusVariable(10, "sv10", "mm", var.U4, False)
